@@ -6,7 +6,7 @@ import subprocess
 
 from vlib import core, e2e
 
-MODS = ['S4V.Props.MemSpec', 'S4V.Props.MemGeneralSpec']
+MODS = ['S4V.Props.MemSpec', 'S4V.Props.MemGeneralSpec', 'S4V.Props.LineSkel2Spec']
 LEVEL_NOTE = ("Proved in general: a gz/bz2/lz4 reader asked in non-decreasing order holds exactly one block between calls and blocks_highest <= 2, for "
               "every content, block size, chunking and file size (READ_BLOCK_LOOKBACK_DROP; model S4V.Model.Stream, tied to the code by the C05 `asm` "
               "correspondence which compares blocks_highest). The stage-3 loop + drop path (drop_data_try target bo_first-2 with guard bo_first>1, syslines "
@@ -239,7 +239,7 @@ def oracle(ctx):
 
 
 def check(ctx):
-    return core.standard_check(ctx, ['Consts', 'Blocks', 'Stream'], MODS, [], oracle, LEVEL_NOTE, ASSUME, need_harness=True)
+    return core.standard_check(ctx, ['Consts', 'Blocks', 'Stream', 'Lines', 'Lines2', 'Lines2Mutants'], MODS, [], oracle, LEVEL_NOTE, ASSUME, need_harness=True)
 
 
 def replay(ctx, data):
